@@ -297,9 +297,10 @@ def run_systematic(ctx: Ctx, cases, check_case, keep_one_in=1, label="systematic
     for idx, case in enumerate(cases):
         if idx % ctx.nshards != ctx.shard:
             continue
-        if keep_one_in > 1:
+        k = keep_one_in(case) if callable(keep_one_in) else keep_one_in
+        if k > 1:
             h = int(hashlib.sha256(f"{ctx.seed}:{label}:{idx}".encode()).hexdigest()[:8], 16)
-            if h % keep_one_in:
+            if h % k:
                 continue
         n += 1
         try:
